@@ -467,17 +467,33 @@ def _uriref_as_dict_key(cx: Cx, ob: Ob, s, conv, arg) -> None:
     u_ = ("param", pu.params[1].name)
     DICTS = ("reverse_prefix_map", "prefix_map", "synonym_to_prefix", "pattern_map", "bimap")
     seen = set()
-    for ev, ctx in ps.walk():
-        if ev.kind != "guard":
+    from ..terms import NONE
+
+    def found_in_dict(g):
+        """(table, line) if guard ``g`` holds exactly when the raw argument IS a key of one of the str-keyed dicts."""
+        a = g.a
+        if op(a) == "cmp" and a[1] in ("in", "not in") and a[2] == u_ and op(a[3]) == "attr" and a[3][1] == me_ and a[3][2] in DICTS:
+            return a[3][2] if (a[1] == "in") == bool(g.b) else None
+        if op(a) == "cmp" and a[1] in ("is", "is not") and is_const(a[3], None):
+            x = a[2]
+            if op(x) == "call" and callee_name(x) == "get" and op(x[1]) == "attr" and op(x[1][1]) == "attr" and x[1][1][1] == me_ and x[1][1][2] in DICTS and x[2] == (u_,):
+                return x[1][1][2] if (a[1] == "is not") == bool(g.b) else None
+        return None
+
+    # only where the branch taken for a str that IS a key ends in FAILURE: the trie would have matched that URI
+    # whole, so 'u' fails and URIRef('u') does not.  (A fast path that answers what the trie would is not judged.)
+    for o, ctx in ps.outcomes():
+        if o is None:
             continue
-        for x in subterms(ev.a):
-            hit = None
-            if op(x) == "cmp" and x[1] in ("in", "not in") and x[2] == u_ and op(x[3]) == "attr" and x[3][1] == me_ and x[3][2] in DICTS:
-                hit = x[3][2]
-            elif op(x) == "call" and callee_name(x) in ("get", "__getitem__", "__contains__") and op(x[1]) == "attr" and op(x[1][1]) == "attr" and x[1][1][1] == me_ and x[1][1][2] in DICTS and x[2][:1] == (u_,):
-                hit = x[1][1][2]
-            elif op(x) == "item" and x[2] == u_ and op(x[1]) == "attr" and x[1][1] == me_ and x[1][2] in DICTS:
-                hit = x[1][2]
+        failing = o[0] == "raise" or (o[0] == "return" and (is_const(o[1], None) or o[1] == ("tuple", (NONE, NONE))))
+        if not failing:
+            continue
+        for g in ctx.guards:
+            if g.kind != "guard":
+                continue
+            hit = found_in_dict(g)
+            x = g.a
+            ev = g
             if hit and (hit, ev.line) not in seen:
                 seen.add((hit, ev.line))
                 ob.violate(
